@@ -87,4 +87,11 @@ META = {
          "__add__, copy_flush return fresh objects sharing no mutable state. Effect analysis: no listed entry point writes through its "
          "input parameters. Bounded (labelled): the remaining entry points by snapshot comparison.",
    note="Assumed: deepcopy / sortedcontainers models; name-based call graph."),
+ "C05": dict(
+   technique="contract-based deductive verification of GammaResults (observed / expected disorder, gamma) and of the job functions handed "
+             "to the thread pool, on top of the proved best / soft alignment contracts; compute_gamma's batching by a bounded stand-in",
+   level="Proved: gamma == 1 if observed == 0 else 1 - observed/mean(chance disorders) (ZeroDivisionError iff the mean is 0 and observed is "
+         "not), <= 1 for non-negative observed and positive mean; expected == mean over exactly the held chance alignments; each job is the "
+         "requested kind of alignment of the continuum it is given. Bounded (labelled): number and freshness of the samples.",
+   note="Assumed: solver model (through the alignment contracts), np.mean."),
 }
